@@ -37,7 +37,8 @@ META = {
         "sigma12_len, and over the 36-symbol extended alphabet up to sigx_len; each tokenised with BUFSIZ = 1..len+1 "
         "and 4096; additionally every string over the 27-symbol alphabet up to seek_len is tokenised after seek(k) for every k "
         "(all buffer sizes again), and once more by ONE parser object that ran to end of input and was rewound with seek(0); "
-        "one token of 4095..9000 bytes of every lexical class (70000 bytes for strings, hex strings, names and comments) (beyond the default buffer and CPython's 4300-digit int limit); "
+        "one token of 4095..9000 bytes of every lexical class (70000 bytes for strings, hex strings, names and comments) (beyond the default buffer and CPython's 4300-digit int limit), and strings holding 1200 and 3200 nested / flat balanced parenthesis pairs (beyond the recursion limit); "
+        "octal: literal strings with a backslash followed by 1..5 digits over {0,1,3,7,8} (alone, after another escape, before a line continuation), every BUFSIZ 1..len+1: an escape takes at most three digits wherever a buffer ends; "
         "the token objects of every two runs are also compared with the library's own == (names and keywords are interned "
         "objects), also after 70000 distinct names were tokenised in the process; every string over the 27-symbol alphabet up to seek_len "
         "(and over the 13 steering symbols up to sigma12_len-1) once more with settings.STRICT=True (nothing but end of input may be signalled in either mode), and once more with the parser's "
@@ -320,6 +321,7 @@ def check_reuse(data: bytes, st) -> None:
 
 LONG_UNITS = [b"7", b"a", b"/N", b"(s", b"<4", b"%c", b"+", b"1.", b" ", b"\\"]
 LONG_LENGTHS = [4095, 4096, 4097, 4400, 9000]
+OCT_DIGITS = [b"0", b"1", b"3", b"7", b"8"]
 
 
 # ---- call histories on one parser object (added after seeded defect C14_15 was missed)
@@ -407,6 +409,10 @@ def long_tokens():
             body = head + fill * n
             close = {b"(": b")", b"<": b">", b"%": b"\n"}.get(head[:1] if head else fill, b"")
             yield b"x " + body + close + b" y"
+    # balanced parentheses nested deeper than CPython's recursion limit, and the same number of flat pairs, in one string
+    for n in (1200, 3200):
+        yield b"x (" + b"(" * n + b"s" + b")" * n + b") y"
+        yield b"x (" + b"()" * n + b") y"
 
 
 def shards(tier):
@@ -423,6 +429,7 @@ def shards(tier):
     out += [("hist", i, o) for i in range(len(HIST_INPUTS)) for o in HIST_OPS]
     out += [("debuglog", i) for i in range(len(SIGMA12))]
     out += [("long",), ("names",)]
+    out += [("octal", d) for d in OCT_DIGITS]
     return out
 
 
@@ -494,6 +501,19 @@ def _run_shard(shard, tier, st):
     if fam == "reuse":
         for data in _strings(SIGMA, [SIGMA[shard[1]]], b["seek_len"]):
             check_reuse(data, st)
+        return
+    if fam == "octal":
+        # an octal escape is at most three digits whatever follows and wherever a buffer ends: ( \\ d1..dk ) for k = 1..5
+        # over the digits OCT_DIGITS, alone, after another escape, and before a line continuation; every BUFSIZ 1..len+1
+        n = 0
+        for k in range(0, 5):
+            for tail in itertools.product(OCT_DIGITS, repeat=k):
+                ds = b"".join((shard[1],) + tail)
+                for data in (b"(\\" + ds + b")", b"(\\7\\" + ds + b"x)", b"(a\\" + ds + b"\\\n1)"):
+                    check_string(data, st, fam)
+                    n += 1
+        if shard[1] == OCT_DIGITS[0]:
+            st.sample({"family": "octal", "digits": OCT_DIGITS, "max_digits": 5, "last": data})
         return
     if fam == "long":
         for data in long_tokens():
